@@ -295,18 +295,19 @@ def bfSide (aux : Aux) (s : Option ScriptM) : Side :=
        | some s => [(hexStr aux.scriptHash, bfScriptInfo s)]
        | none => []⟩
 
+def bfMembers (aux : Aux) (u : UTxOModel) : List (String × J) :=
+  [("address", .str u.address), ("tx_hash", .str (hexStr u.txId)), ("tx_index", .num u.index),
+   ("output_index", .num u.index),
+   ("amount", .arr (.obj [("unit", .str "lovelace"), ("quantity", .str (intStr u.coin))]
+                    :: (flatten u.ma).map bfEntry)),
+   ("block", .str ""),
+   ("data_hash", optStr (shownHash aux u)),
+   ("inline_datum", datumHexJ u.datum),
+   ("reference_script_hash", scriptHashJ aux u.script)]
+
 /-- `GET /addresses/{a}/utxos` entry (Blockfrost shows `data_hash` for an inline datum too) and the script
 endpoints -/
-def render_blockfrost (aux : Aux) (u : UTxOModel) : J × Side :=
-  (.obj [("address", .str u.address), ("tx_hash", .str (hexStr u.txId)), ("tx_index", .num u.index),
-         ("output_index", .num u.index),
-         ("amount", .arr (.obj [("unit", .str "lovelace"), ("quantity", .str (intStr u.coin))]
-                          :: (flatten u.ma).map bfEntry)),
-         ("block", .str ""),
-         ("data_hash", optStr (shownHash aux u)),
-         ("inline_datum", datumHexJ u.datum),
-         ("reference_script_hash", scriptHashJ aux u.script)],
-   bfSide aux u.script)
+def render_blockfrost (aux : Aux) (u : UTxOModel) : J × Side := (.obj (bfMembers aux u), bfSide aux u.script)
 
 /-- loop body of `for item in amount` -/
 def bfItem (item : J) (st : Int × MultiAsset) : Res (Int × MultiAsset) := do
@@ -441,17 +442,21 @@ def kupoSide (aux : Aux) (u : UTxOModel) : Side :=
    | some s => [(hexStr aux.scriptHash, kupoScriptInfo s)]
    | none => []⟩
 
+def kupoDatumTypeJ (aux : Aux) (u : UTxOModel) : J :=
+  match shownHash aux u with
+  | some _ => .str (if u.datum.isSome then "inline" else "hash")
+  | none => .null
+
+def kupoMembers (aux : Aux) (u : UTxOModel) : List (String × J) :=
+  [("transaction_index", .num 0), ("transaction_id", .str (hexStr u.txId)), ("output_index", .num u.index),
+   ("address", .str u.address), ("value", dotValue u), ("datum_hash", optStr (shownHash aux u)),
+   ("datum_type", kupoDatumTypeJ aux u),
+   ("script_hash", scriptHashJ aux u.script),
+   ("created_at", .obj [("slot_no", .num 0), ("header_hash", .str "")]), ("spent_at", .null)]
+
 /-- `GET /matches/{a}?unspent` entry and the datum / script endpoints.  Kupo lists an inline datum by its hash
 with `datum_type = "inline"`; for a datum hash whose preimage it has not seen, `GET /datums/{h}` answers `null` -/
-def render_kupo (aux : Aux) (u : UTxOModel) : J × Side :=
-  (.obj [("transaction_index", .num 0), ("transaction_id", .str (hexStr u.txId)), ("output_index", .num u.index),
-         ("address", .str u.address), ("value", dotValue u), ("datum_hash", optStr (shownHash aux u)),
-         ("datum_type", match shownHash aux u with
-            | some _ => .str (if u.datum.isSome then "inline" else "hash")
-            | none => .null),
-         ("script_hash", scriptHashJ aux u.script),
-         ("created_at", .obj [("slot_no", .num 0), ("header_hash", .str "")]), ("spent_at", .null)],
-   kupoSide aux u)
+def render_kupo (aux : Aux) (u : UTxOModel) : J × Side := (.obj (kupoMembers aux u), kupoSide aux u)
 
 /-- `s.startswith("plutus:v")` -/
 def startsPlutusV (s : String) : Bool := s.toList.take 8 = "plutus:v".toList
@@ -474,6 +479,13 @@ def kupoDatum (side : Side) (h : J) : Res (Option Payload) := do
     let d ← r.field "datum"
     if !J.eqPrim d h then pure (some (.bytes (← fromHex (← d.asStr)))) else pure none
   else pure none
+
+/-- `datum_hash = DatumHash.from_primitive(result["datum_hash"]) if result["datum_hash"] else None` and
+`if datum_hash and result.get("datum_type", "inline"): datum = self._get_datum_from_kupo(...)`
+(a `DatumHash` object is always truthy) -/
+def kupoDatums (side : Side) (dhJ dt : J) : Res (Option Bytes × Option Payload) := do
+  let datumHash ← hashIfTruthy dhJ
+  if datumHash.isSome && dt.truthy then pure (datumHash, ← kupoDatum side dhJ) else pure (datumHash, none)
 
 /-- the reference-script part: `GET /scripts/{h}`, `PlutusScript.from_version` -/
 def kupoScript (side : Side) (sh : J) : Res (Option ScriptM) := do
@@ -498,13 +510,9 @@ def parse_kupo (addr : String) (side : Side) (r : J) : Res (Option UTxOModel) :=
     let value ← r.field "value"
     let _ ← value.field "coins"
     let script ← kupoScript side (← r.getN "script_hash")
-    let dhJ ← r.field "datum_hash"
-    let datumHash ← hashIfTruthy dhJ
-    let dt ← r.getD "datum_type" (.str "inline")
-    -- `if datum_hash and result.get("datum_type", "inline")` : a `DatumHash` object is always truthy
-    let datum ← if datumHash.isSome && dt.truthy then kupoDatum side dhJ else pure none
+    let dd ← kupoDatums side (← r.field "datum_hash") (← r.getD "datum_type" (.str "inline"))
     let cm ← dotParseValue value
-    pure (some ⟨ti.1, ti.2, addr, cm.1, cm.2, datumHash, datum, script⟩)
+    pure (some ⟨ti.1, ti.2, addr, cm.1, cm.2, dd.1, dd.2, script⟩)
   else pure none
 
 /-! ## Ogmios v5 (ogmios_v5.py:325-369) -/
@@ -667,20 +675,26 @@ def cliScriptJ (s : Option ScriptM) : J :=
 
 def cliKey (u : UTxOModel) : String := String.ofList (hexChars u.txId ++ '#' :: (intStr u.index).toList)
 
+def cliInlineJ (d : Option Payload) : J :=
+  match d with
+  | some p => payloadJ p
+  | none => .null
+
+def cliInlineHashJ (aux : Aux) (d : Option Payload) : J :=
+  match d with
+  | some _ => .str (hexStr aux.inlineHash)
+  | none => .null
+
+def cliMembers (aux : Aux) (u : UTxOModel) : List (String × J) :=
+  [("address", .str u.address), ("datum", .null), ("datumhash", optStr u.datumHash),
+   ("inlineDatum", cliInlineJ u.datum), ("inlineDatumhash", cliInlineHashJ aux u.datum),
+   ("referenceScript", cliScriptJ u.script),
+   ("value", .obj (u.ma.map nestedPolicy ++ [("lovelace", .num u.coin)]))]
+
 /-- one `"txid#ix": {...}` member of `cardano-cli query utxo --out-file /dev/stdout`.  An inline datum is
 reported as detailed-schema JSON (`Payload.json`) next to `inlineDatumhash`; a Plutus reference script as a text
 envelope whose `cborHex` payload (the CBOR byte string wrapping the script) is carried opaquely -/
-def render_cardano_cli (aux : Aux) (u : UTxOModel) : String × J :=
-  (cliKey u,
-   .obj [("address", .str u.address), ("datum", .null), ("datumhash", optStr u.datumHash),
-         ("inlineDatum", match u.datum with
-            | some p => payloadJ p
-            | none => .null),
-         ("inlineDatumhash", match u.datum with
-            | some _ => .str (hexStr aux.inlineHash)
-            | none => .null),
-         ("referenceScript", cliScriptJ u.script),
-         ("value", .obj (u.ma.map nestedPolicy ++ [("lovelace", .num u.coin)]))])
+def render_cardano_cli (aux : Aux) (u : UTxOModel) : String × J := (cliKey u, .obj (cliMembers aux u))
 
 /-- `for asset_hex_name in utxo["value"][asset].keys()` -/
 def cliInner (policy : Bytes) : List (String × J) → MultiAsset → Res MultiAsset
